@@ -4,6 +4,7 @@ open Model
 open X_fops
 
 let hexs l = String.concat " " (List.map hex l)
+let rec nat_of_int n = if n <= 0 then O else S (nat_of_int (n - 1))
 
 (* a total function from index pairs/triples backed by a row-major array (0 outside) *)
 let fun2 (ny : int) (a : float array) : (z * z) -> float =
@@ -33,7 +34,17 @@ let () =
            let sc = { s_has_samples = hs; s_min = z_of_int mins; s_full = z_of_int fulls } in
            let r = integrate1 fops sc per sm wd gd gc in
            Printf.printf "%d %s\n" (List.length r) (hexs r)
-         | "DIV" ->
+         | "TI1D" ->
+           let per = nb () in let hs = nb () in
+           let mins = ni () in let fulls = ni () in let n = ni () in
+           let wd = nf () in
+           let gd = List.init n (fun _ -> nf ()) in
+           let gc = List.init n (fun _ -> z_of_int (ni ())) in
+           let sc = { s_has_samples = hs; s_min = z_of_int mins; s_full = z_of_int fulls } in
+           let r = ti_integral1 fops sc per wd gd gc in
+           Printf.printf "%d %s\n" (List.length r) (hexs r)
+         | "DIV" | "SOLVE" ->
+           let solve = (w.(0) = "SOLVE") in
            let nd = ni () in
            let per = Array.init nd (fun _ -> nb ()) in
            let nxg = Array.init nd (fun _ -> ni ()) in
@@ -51,8 +62,14 @@ let () =
              let st0 = if npre > 0 then set_div2 fops sc sm sh st0 else st0 in
              let st = run2 fops sc sm sh st0 evs in
              let inc = dump2 sh st.dv2 in
-             let bat = dump2 sh (set_div2 fops sc sm sh st).dv2 in
-             Printf.printf "%d %s | %s\n" (List.length inc) (hexs inc) (hexs bat)
+             let stb = set_div2 fops sc sm sh st in
+             let bat = dump2 sh stb.dv2 in
+             if not solve then Printf.printf "%d %s | %s\n" (List.length inc) (hexs inc) (hexs bat)
+             else begin
+               let itmax = ni () in let tol = nf () in
+               let ((x, _), (iter, err)) = integrate2 fops sh (nat_of_int itmax) tol stb.dv2 (fun _ -> 0.0) (-1.0) in
+               Printf.printf "%d %d %s | %s | %s\n" (List.length bat) (int_of_z iter) (hex err) (hexs bat) (hexs (dump2 sh x))
+             end
            end else begin
              let sh = { qx = per.(0); qy = per.(1); qz = per.(2); mxg = z_of_int nxg.(0); myg = z_of_int nxg.(1);
                         mzg = z_of_int nxg.(2); vx = wd.(0); vy = wd.(1); vz = wd.(2) } in
@@ -65,8 +82,14 @@ let () =
              let st0 = if npre > 0 then set_div3 fops sc sm sh st0 else st0 in
              let st = run3 fops sc sm sh st0 evs in
              let inc = dump3 sh st.dv3 in
-             let bat = dump3 sh (set_div3 fops sc sm sh st).dv3 in
-             Printf.printf "%d %s | %s\n" (List.length inc) (hexs inc) (hexs bat)
+             let stb = set_div3 fops sc sm sh st in
+             let bat = dump3 sh stb.dv3 in
+             if not solve then Printf.printf "%d %s | %s\n" (List.length inc) (hexs inc) (hexs bat)
+             else begin
+               let itmax = ni () in let tol = nf () in
+               let ((x, _), (iter, err)) = integrate3 fops sh (nat_of_int itmax) tol stb.dv3 (fun _ -> 0.0) (-1.0) in
+               Printf.printf "%d %d %s | %s | %s\n" (List.length bat) (int_of_z iter) (hex err) (hexs bat) (hexs (dump3 sh x))
+             end
            end
          | "ATIMES" ->
            let nd = ni () in
